@@ -236,3 +236,18 @@ Check D06_covered : forall mac c st x a st' bytes qs,
   (lenN bytes <= Bucket.MIN_COST \/ lenN (x_b x) <= lenN bytes) -> lenN bytes < 2147483648 ->
   step_octets mac c st x a <= step_tokens mac c st x a.
 Print Assumptions D06_covered.
+
+(* D04 over histories.  [reach mac c st0 xs = Some st]: the history xs of steps leads from st0 to st.
+   From a state with an empty store, every packet the cache stage can relay "from the cache" (the m0 of
+   D04_faithful's second case: the packet stored under the query's key) is what the upstream answered
+   -- decoded from its octets, accepted by the resolver -- to an EARLIER query of the history with the
+   identical (name, type, DO, CD) key and class IN ([fetched_in]).  Together with D04_faithful: a
+   client only ever sees records an upstream sent for that very question, aged by whole seconds. *)
+Theorem D04_history : forall mac c st0 xs st k m,
+  s_store st0 = [] -> reach mac c st0 xs = Some st ->
+  store_lookup k (s_store st) = Some m -> exists x, In x xs /\ fetched_in x k m.
+Proof. exact store_provenance. Qed.
+Check D04_history : forall mac c st0 xs st k m,
+  s_store st0 = [] -> reach mac c st0 xs = Some st ->
+  store_lookup k (s_store st) = Some m -> exists x, In x xs /\ fetched_in x k m.
+Print Assumptions D04_history.
